@@ -101,6 +101,10 @@ func init() {
 			{Label: "lbr-6-2-2", SizeLength: 6, IndexLength: 2, IndexDeltaLength: 2},
 			{Label: "13-0-0", SizeLength: 13},
 			{Label: "21-3-3", SizeLength: 21, IndexLength: 3, IndexDeltaLength: 3},
+			// index and index-delta fields of different widths: the first AU header and the
+			// following ones then have different sizes
+			{Label: "13-3-4", SizeLength: 13, IndexLength: 3, IndexDeltaLength: 4},
+			{Label: "11-5-2", SizeLength: 11, IndexLength: 5, IndexDeltaLength: 2},
 		},
 		Grammar: "group = 1..n access units of 1..min(2^SizeLength-1, 5120) bytes; first byte never FF (a raw_data_block " +
 			"starting with FF Fx would be taken for ADTS by the decoder's camera work-around)",
